@@ -259,8 +259,13 @@ func (w *world) refreshViews() {
 		}
 	}
 	for _, v := range w.views {
-		if v.refresh() && w.strict {
-			w.checkSnapshot(v)
+		if v.refresh() {
+			if w.strict {
+				w.checkSnapshot(v)
+			}
+			if w.c.Flags["parse-snapshots"] == "1" && w.viol == nil {
+				w.parseSnapshot(v)
+			}
 		}
 	}
 }
